@@ -15,6 +15,13 @@
      31, 32    characters that are white space to Unicode only (no-break space, form feed, vertical tab, U+2028, U+3000, ...,
                byte order mark) and CRs that are not part of a line break, at the end, at the start and in the middle of the
                lines of two- and three-line strings, alone and mixed with blanks and tabs
+     33        unquoted arguments with every ASCII punctuation character (but ; { }) and characters beyond ASCII inside and at
+               the end of the word, singly, doubled and in all pairs, carried by several statements
+     34, 35    statements of every kind as carriers of the same argument texts: the argument reported is the value of the source
+               form whatever the keyword - also where the argument has a syntax of its own (pattern, range, length, key,
+               unique, path, must, when, dates, identifiers, schema node identifiers, numbers, booleans, URIs); every text in
+               every quoting form and cut into two pieces at several places (34: statements with typed arguments carry their
+               own texts; 35: statements with free text carry all of them)
      30        several statements of one kind with long, equally long, nearly equal arguments (in one module, and with
                the siblings in a module parsed before with the same interners)
      100, 101  NRand / 2 layouts each, drawn at random from all the menus (TLC -seed)
@@ -94,14 +101,16 @@ Feat(pieces) ==
       emptyFirstLine |-> \E k \in dq : Len(ls(k)) > 1 /\ body(ls(k)[1]) = << >>,
       blankMiddleLine |-> \E k \in dq : \E j \in 2..(Len(ls(k)) - 1) : StripTrail(StripLead(body(ls(k)[j]), 1000)) = << >>,
       crlf |-> \E k \in dq : \E i \in 1..Len(pieces[k].src) : pieces[k].src[i] = CR,
-      leadingPlus |-> pieces[1].q = "u" /\ Len(pieces[1].src) > 0 /\ pieces[1].src[1] = PLUS]
+      leadingPlus |-> pieces[1].q = "u" /\ Len(pieces[1].src) > 0 /\ pieces[1].src[1] = PLUS,
+      \* a double quote inside an unquoted word
+      innerDQ |-> \E k \in 1..Len(pieces) : pieces[k].q = "u" /\ HasCh(pieces[k].src, DQ)]
 
 \* the definitions of YangString checked against themselves on every generated double-quoted source
 Sane(pieces) == \A k \in 1..Len(pieces) : pieces[k].q = "d" =>
   /\ PlainIsVerbatim(pieces[k].src, 7) /\ SingleLineLayoutFree(pieces[k].src) /\ NoBreakNoStrip(pieces[k].src, 7)
 VecAt(f, pre, pieces, joins, tail, path) ==
   LET r == RenderArg(HeadTxt \o pre, pieces, joins) IN
-  [fam |-> f, text |-> r.text \o tail \o FootTxt, path |-> path, expect |-> r.value, judged |-> r.judged, feat |-> Feat(pieces),
+  [fam |-> f, kw |-> "description", text |-> r.text \o tail \o FootTxt, path |-> path, expect |-> r.value, judged |-> r.judged, feat |-> Feat(pieces),
    sane |-> Assert(Sane(pieces), <<"spec fault: YangString contradicts itself on", pieces>>)]
 
 Vec(f, pre, pieces, joins, tail) == VecAt(f, pre, pieces, joins, tail, PathOf(pre))
@@ -196,7 +205,7 @@ LongVec(kw, n, k, split) ==
       whole == LongStmts(HeadTxt, kw, args, 1) \o C("}") \o <<LF>>
       others == LongStmts(HeadTxt, kw, [j \in 1..(k - 1) |-> args[j]], 1) \o C("}") \o <<LF>>
       alone == RenderArg(HeadTxt \o C("  ") \o kw \o <<SP>>, LongPieces(args[k], k), <<C(" + ")>>).text \o <<SEMI, LF>> \o C("}") \o <<LF>>
-  IN [fam |-> 30, text |-> IF split THEN alone ELSE whole, before |-> IF split THEN others ELSE << >>,
+  IN [fam |-> 30, kw |-> "m:e", text |-> IF split THEN alone ELSE whole, before |-> IF split THEN others ELSE << >>,
       path |-> IF split THEN <<3>> ELSE <<2 + k>>, expect |-> args[k], judged |-> TRUE, feat |-> Feat(LongPieces(args[k], k)),
       sane |-> TRUE]
 LongOnes(u_) == {LongVec(C("m:e"), n, k, sp) : n \in LongLens, k \in 1..5, sp \in BOOLEAN}
@@ -212,6 +221,123 @@ Exotic2(u_) == UNION {UNION {UNION {{Vec(31, Pres[p], <<D(src)>>, << >>, TailMen
 Exotic3(u_) == UNION {UNION {UNION {UNION {(IF Thorough THEN Spellings(32, Pres[p], src) ELSE {Vec(32, Pres[p], <<D(src)>>, << >>, TailMenu[1])})
                                             : src \in Exo3(x, QC(Pres[p]), e)} : e \in ExoEols(x)} : x \in ExoChars} : p \in ExoPres}
 
+\* ---- statements as carriers of an argument.  A carrier is a complete module with a hole where the argument of one statement
+\* goes: head + pre, the argument, post; path leads from the module to the statement; cls names the syntax RFC 6020 gives the
+\* argument of that statement (section 12: which texts may stand there at all).  What is reported as the argument is the value of
+\* its source form, for every statement alike (6.1.3 knows no keywords).
+Car(kw, pre, post, path, cls) == [kw |-> kw, head |-> HeadTxt, pre |-> C(pre), post |-> C(post) \o FootTxt, path |-> path, cls |-> cls]
+LeafT(kw, cls) == Car(kw, "  leaf l { type string; " \o kw \o " ", "; }", <<3, 2>>, cls)
+InType(ty, kw, cls) == Car(kw, "  leaf l { type " \o ty \o " { " \o kw \o " ", "; } }", <<3, 1, 1>>, cls)
+Top(kw, cls) == Car(kw, "  " \o kw \o " ", ";", <<3>>, cls)
+FreeCars == << Top("description", "free"), Top("reference", "free"), Top("contact", "free"), Top("organization", "free"), Top("m:e", "free"),
+               LeafT("default", "free"), LeafT("units", "free"), Car("presence", "  container c { presence ", "; }", <<3, 1>>, "free"),
+               Car("error-message", "  leaf l { type string { pattern 'x' { error-message ", "; } } }", <<3, 1, 1, 1>>, "free"),
+               Car("error-app-tag", "  leaf l { type string { pattern 'x' { error-app-tag ", "; } } }", <<3, 1, 1, 1>>, "free"),
+               InType("enumeration", "enum", "free") >>
+TypedCars == << InType("string", "pattern", "pattern"), InType("string", "length", "length"), InType("int32", "range", "range"),
+                Car("key", "  list li { key ", "; leaf a { type string; } leaf b { type string; } }", <<3, 1>>, "key"),
+                Car("unique", "  list li { key a; unique ", "; leaf a { type string; } leaf b { type string; } leaf c { type string; } }", <<3, 2>>, "unique"),
+                InType("leafref", "path", "path"), LeafT("must", "xpath"), LeafT("when", "xpath"),
+                Top("revision", "date"), Car("revision-date", "  import x { prefix x; revision-date ", "; }", <<3, 2>>, "date"),
+                InType("bits", "bit", "ident"), InType("enumeration", "enum", "ident"),
+                [kw |-> "namespace", head |-> C("module m {") \o <<LF>>, pre |-> C("  namespace "), post |-> C(";") \o <<LF>> \o C("  prefix m;") \o FootTxt, path |-> <<1>>, cls |-> "uri"],
+                [kw |-> "prefix", head |-> C("module m {") \o <<LF>>, pre |-> C("  namespace \"urn:m\"; prefix "), post |-> C(";") \o FootTxt, path |-> <<2>>, cls |-> "ident"],
+                Car("augment", "  augment ", " { leaf z { type string; } }", <<3>>, "absnode"), Car("deviation", "  deviation ", " { deviate not-supported; }", <<3>>, "absnode"),
+                Car("refine", "  container c { uses g { refine ", " { description d; } } }", <<3, 1, 1>>, "descnode"),
+                Car("if-feature", "  container c { if-feature ", "; }", <<3, 1>>, "idref"), Car("base", "  identity i { base ", "; }", <<3, 1>>, "idref"),
+                Car("type", "  leaf l { type ", "; }", <<3, 1>>, "idref"), Car("uses", "  container c { uses ", "; }", <<3, 1>>, "idref"),
+                Car("value", "  leaf l { type enumeration { enum a { value ", "; } } }", <<3, 1, 1, 1>>, "int"),
+                Car("position", "  leaf l { type bits { bit a { position ", "; } } }", <<3, 1, 1, 1>>, "uint"),
+                Car("min-elements", "  leaf-list ll { type string; min-elements ", "; }", <<3, 2>>, "uint"),
+                Car("max-elements", "  leaf-list ll { type string; max-elements ", "; }", <<3, 2>>, "max"),
+                InType("decimal64", "fraction-digits", "fd"), LeafT("config", "bool"), LeafT("mandatory", "bool"), LeafT("status", "status"),
+                Car("ordered-by", "  leaf-list ll { type string; ordered-by ", "; }", <<3, 2>>, "order"), Top("yang-version", "version"),
+                Car("yin-element", "  extension e { argument a { yin-element ", "; } }", <<3, 1, 1>>, "bool"),
+                InType("instance-identifier", "require-instance", "bool") >>
+\* texts per syntax class (each is a legal argument of the statements of its class; XSD regular expressions within what Go's
+\* regexp package knows)
+BS(s) == LET t == C(s) IN [i \in 1..Len(t) |-> IF t[i] = 126 THEN BSL ELSE t[i]]        \* '~' stands for a backslash
+ClsTexts(cls) ==
+  CASE cls = "pattern" -> {BS("~p{IsBasicLatin}+"), BS("~p{L}+"), BS("[~p{N}~p{L}]*"), BS("~d{2}-~d+"), BS("[a-z]+~.[a-z]+"), BS("~P{Lu}~s~w"), BS("a|b~|c"), BS("~~~-x"),
+                           BS("~p{IsBasicLatin}~p{IsBasicLatin}*"), BS("~p{Lu}~p{Ll}*"), BS("x~p{IsBasicLatin}"), BS("(~p{IsBasicLatin}|~p{Nd}){1,3}"), BS("[0-9a-fA-F:~.]+"), BS("~{~}~[~]")}
+    [] cls = "range" -> {C("1..10"), C("min..max"), C("1..10 | 20..max"), C("-5..5"), C("1 .. 10|20"), C("7")}
+    [] cls = "length" -> {C("1..255"), C("0..max"), C("4 | 8..16"), C("min..8")}
+    [] cls = "key" -> {C("a"), C("a b"), C("a  b"), C("b a")}
+    [] cls = "unique" -> {C("a"), C("b c"), C("b  c")}
+    [] cls = "path" -> {C("/m:a/m:b"), C("../a"), C("/m:li[m:k = current()/../m:x]/m:v"), C("../../m:c/m:d")}
+    [] cls = "xpath" -> {C(". != ''"), C("../a = 'x' or ../b"), C("count(../li) <= 10"), C("a/b[c='1']/d"), C("starts-with(., \"ab\")"), C("not(../x) and (. * 2 > 7 - 1)"),
+                         C("../a = 1") \o <<LF>> \o C("or ../b"), C("../a") \o <<LF>> \o C("  | ../b") \o <<LF>> \o C("  | ../c")}
+    [] cls = "date" -> {C("2020-01-01"), C("1999-12-31")}
+    [] cls = "ident" -> {C("a"), C("up-to_date.1"), C("_x")}
+    [] cls = "uri" -> {C("urn:m"), C("http://example.com/ns?x=1&y=%20#frag"), C("urn:ietf:params:xml:ns:yang:m")}
+    [] cls = "absnode" -> {C("/m:c"), C("/m:c/m:d")}
+    [] cls = "descnode" -> {C("a"), C("a/b"), C("m:a/m:b")}
+    [] cls = "idref" -> {C("t1"), C("m:t1")}
+    [] cls = "int" -> {C("0"), C("42"), C("-7"), C("2147483647"), C("-2147483648")}
+    [] cls = "uint" -> {C("0"), C("42"), C("4294967295")}
+    [] cls = "max" -> {C("1"), C("unbounded"), C("42")}
+    [] cls = "fd" -> {C("1"), C("18")}
+    [] cls = "bool" -> {C("true"), C("false")}
+    [] cls = "status" -> {C("current"), C("deprecated"), C("obsolete")}
+    [] cls = "order" -> {C("user"), C("system")}
+    [] cls = "version" -> {C("1")}
+    [] OTHER -> {}
+TypedClasses == {"pattern", "range", "length", "key", "unique", "path", "xpath", "date", "ident", "uri", "absnode", "descnode", "idref", "int", "uint", "max", "fd", "bool", "status", "order"}
+\* free text: whatever any of the others may carry, and texts of its own (none with a blank at either end or empty: an enum carries them too)
+FreeTexts(u_) == UNION {ClsTexts(c) : c \in TypedClasses}
+                 \cup {C("it's"), C("\"q\""), C("x;y{z}"), C("//c"), C("/*c*/ */"), C("+"), C("a+b"), C("10%"), C("a") \o <<TAB>> \o C("b"), <<233, 8364, 128512>>, C("a") \o <<NBSP>> \o C("b"),
+                       BS("C:~dir~new~table~"), BS("~n~t~~~\"")}
+\* the source forms of a value v whose first quote stands in column q: double-quoted (escaped), single-quoted, unquoted - where such
+\* a form exists -, double-quoted over several lines (continuation lines indented to the column after the quote), and two pieces cut
+\* at position k in the quoting combinations that exist; the + with the k-th trivia of the menu
+RECURSIVE Aligned(_, _, _)
+Aligned(v, q, i) == IF i > Len(v) THEN << >>
+                    ELSE (IF v[i] = LF THEN <<LF>> \o Spaces(q) ELSE IF v[i] = DQ THEN <<BSL, DQ>> ELSE IF v[i] = BSL THEN <<BSL, BSL>> ELSE <<v[i]>>) \o Aligned(v, q, i + 1)
+CutPts(v, wide) == {k \in (IF wide THEN {1, 2, 3, 5, Len(v) \div 2, Len(v) - 1} ELSE {Len(v) \div 2}) : k >= 1 /\ k < Len(v)}
+FormsOf(v, q, wide) ==
+  {[ps |-> <<D(EscDQ(v, 1))>>, js |-> << >>]}
+  \cup (IF HasCh(v, SQ) THEN {} ELSE {[ps |-> <<S(v)>>, js |-> << >>]})
+  \cup (IF UnqJudged(v) /\ v[1] # PLUS /\ ~HasCh(v, DQ) THEN {[ps |-> <<U(v)>>, js |-> << >>]} ELSE {})
+  \cup (IF HasCh(v, LF) THEN {[ps |-> <<D(Aligned(v, q, 1))>>, js |-> << >>]} ELSE {})
+  \cup UNION {LET l == SubSeq(v, 1, k)  r == SubSeq(v, k + 1, Len(v))  j == <<Joins[1 + (k % Len(Joins))]>> IN
+              {[ps |-> <<D(EscDQ(l, 1)), D(EscDQ(r, 1))>>, js |-> j]}
+              \cup (IF HasCh(l, SQ) THEN {} ELSE {[ps |-> <<S(l), D(EscDQ(r, 1))>>, js |-> j]})
+              \cup (IF HasCh(r, SQ) THEN {} ELSE {[ps |-> <<D(EscDQ(l, 1)), S(r)>>, js |-> j]}) : k \in CutPts(v, wide)}
+\* the way into the parser (YangChars!AllEntries) rotates over the vectors of families 33-35: the argument of a statement is the
+\* value of its source form through every entry, also when the Tree (with its interners) has parsed another module before
+C8Firsts == << HeadTxt \o C("  description \"earlier text\";") \o <<LF>> \o BS("  leaf l { type string { pattern '~p{IsBasicLatin}*'; length 1..5; } default a; units a; }") \o FootTxt,
+               << >>, C("a b c"), HeadTxt \o C("  m:e a'b;  contact \"a\" + 'b';") \o FootTxt >>
+EntryOf(k) == AllEntries[1 + (k % 5)]
+FirstOf(k) == IF EntryOf(k) = "Reparse" THEN C8Firsts[1 + ((k \div 5) % Len(C8Firsts))] ELSE << >>
+CarVec(f, c, v, form) ==
+  LET r == RenderArg(c.head \o c.pre, form.ps, form.js)  k == Len(r.text) + Len(form.ps) + Len(v) IN
+  [fam |-> f, kw |-> c.kw, entry |-> EntryOf(k), first |-> FirstOf(k), text |-> r.text \o c.post, path |-> c.path, expect |-> r.value, judged |-> r.judged, feat |-> Feat(form.ps),
+   sane |-> Assert(Sane(form.ps) /\ (r.judged => r.value = v), <<"spec fault: a source form does not stand for its value", c.kw, v, form>>)]
+CarVecs(f, c, texts, wide) == UNION {{CarVec(f, c, v, fm) : fm \in FormsOf(v, QuoteCol(Append(c.head \o c.pre, DQ)), wide)} : v \in texts}
+Typed(u_) == UNION {CarVecs(34, TypedCars[i], ClsTexts(TypedCars[i].cls), TRUE) : i \in 1..Len(TypedCars)}
+Free(u_) == UNION {CarVecs(35, FreeCars[i], FreeTexts(0), Thorough) : i \in 1..Len(FreeCars)}
+
+\* family 33: unquoted strings stand for themselves (YangString!UnqJudged says which texts are unquoted strings at all).  Every
+\* printable ASCII punctuation character except ; { } and a choice of characters beyond ASCII (1 to 4 bytes, blanks of Unicode,
+\* characters whose low byte is that of a structural ASCII character) inside a word, at its end, doubled, twice in a word, and
+\* every pair of punctuation characters inside a word; carried by statements of several kinds, followed by ; directly, by a
+\* blank, by a line break and by a block.
+Punct == C("!\"#$%&'()*+,-./:<=>?@[\\]^_`|~")
+BeyondAscii == <<233, 8364, 128512, NBSP, 8232, 12288>> \o SetToSeq(AliasesAt(256))
+UnqShapes(x) == {<<97, x, 98>>, <<97, x>>, <<97, 98, x, x>>, <<97, x, 98, x, 99>>, <<49, x, 50, x>>, <<46, 46, 47, 99, 61, x, 120, x>>}
+UnqPosts == << C(";"), C(" ;"), <<LF>> \o C("  ;"), C(" { }"), C("{}") >>
+UnqCars == << Top("description", "free"), Top("m:e", "free"), LeafT("default", "free"), LeafT("units", "free"), InType("enumeration", "enum", "free"),
+              Car("presence", "  container c { presence ", "; }", <<3, 1>>, "free") >>
+WithPost(c, k) == IF c.kw \in {"description", "m:e"} THEN [c EXCEPT !.post = UnqPosts[1 + (k % Len(UnqPosts))] \o FootTxt] ELSE c
+UnqVec(c, v) == LET r == RenderArg(c.head \o c.pre, <<U(v)>>, << >>)  k == Len(r.text) + v[2] + v[Len(v)] IN
+  [fam |-> 33, kw |-> c.kw, entry |-> EntryOf(k), first |-> FirstOf(k), text |-> r.text \o c.post, path |-> c.path, expect |-> r.value, judged |-> r.judged, feat |-> Feat(<<U(v)>>), sane |-> TRUE]
+Unquoted(u_) ==
+  LET chars == Punct \o BeyondAscii
+      words == UNION {{<<i, w>> : w \in UnqShapes(chars[i])} : i \in 1..Len(chars)}
+               \cup {<<x + y, <<97, Punct[x], Punct[y], 98>>>> : x \in 1..Len(Punct), y \in 1..Len(Punct)}
+      ok == {w \in words : UnqJudged(w[2])}
+  IN UNION {{UnqVec(WithPost(UnqCars[1 + ((w[1] + Len(w[2]) + d) % Len(UnqCars))], w[1] + d), w[2]) : d \in (IF Thorough THEN 0..5 ELSE {0, 1})} : w \in ok}
+
 \* family 100: everything at random
 RE(seq) == seq[RandomElement(1..Len(seq))]
 RandDq(q) == LET n == RandomElement(1..4)  e == RE(Eols) IN
@@ -225,8 +351,8 @@ Random(u_) == {RandVec(k) : k \in 1..(NRand \div 2)}
 
 \* (the big sets take a dummy parameter: TLC evaluates every parameterless definition once at start-up, single-threaded)
 Cases == IF fam <= Len(Pres) THEN TwoLines(fam)
-         ELSE IF fam = 20 THEN ThreeLines(0) ELSE IF fam = 21 THEN Plain(0) ELSE IF fam = 22 THEN Concat2(0) ELSE IF fam = 23 THEN Concat3(0) ELSE IF fam = 24 THEN Escapes(0) ELSE IF fam = 25 THEN CommentJoins(0) ELSE IF fam = 26 THEN Edges2(1) ELSE IF fam = 27 THEN Edges2(5) ELSE IF fam = 28 THEN Edges3(1) ELSE IF fam = 29 THEN Edges3(5) ELSE IF fam = 30 THEN LongOnes(0) ELSE IF fam = 31 THEN Exotic2(0) ELSE IF fam = 32 THEN Exotic3(0) ELSE Random(0)
-GInit == fam \in PreFams \cup {20, 21, 22, 23, 24, 25, 26, 27, 28, 30, 31, 32, 100, 101} \cup (IF Thorough THEN {29} ELSE {}) /\ done = FALSE
+         ELSE IF fam = 20 THEN ThreeLines(0) ELSE IF fam = 21 THEN Plain(0) ELSE IF fam = 22 THEN Concat2(0) ELSE IF fam = 23 THEN Concat3(0) ELSE IF fam = 24 THEN Escapes(0) ELSE IF fam = 25 THEN CommentJoins(0) ELSE IF fam = 26 THEN Edges2(1) ELSE IF fam = 27 THEN Edges2(5) ELSE IF fam = 28 THEN Edges3(1) ELSE IF fam = 29 THEN Edges3(5) ELSE IF fam = 30 THEN LongOnes(0) ELSE IF fam = 31 THEN Exotic2(0) ELSE IF fam = 32 THEN Exotic3(0) ELSE IF fam = 33 THEN Unquoted(0) ELSE IF fam = 34 THEN Typed(0) ELSE IF fam = 35 THEN Free(0) ELSE Random(0)
+GInit == fam \in PreFams \cup {20, 21, 22, 23, 24, 25, 26, 27, 28, 30, 31, 32, 33, 34, 35, 100, 101} \cup (IF Thorough THEN {29} ELSE {}) /\ done = FALSE
 GNext == /\ ~done /\ done' = TRUE /\ UNCHANGED fam
          /\ ndJsonSerialize("vec_" \o ToString(fam) \o ".ndjson", SetToSeq(Cases))
 =============================================================================
